@@ -18,7 +18,7 @@ from typing import Any, Callable, Dict, List, Optional
 from taskiq import AckableMessage, AsyncBroker, TaskiqMiddleware
 from taskiq.abc.result_backend import AsyncResultBackend
 from taskiq.acks import AcknowledgeType
-from taskiq.exceptions import BrokerError  # noqa: E402
+from taskiq.exceptions import BrokerError, TaskRejectedError  # noqa: E402
 from taskiq.exceptions import NoResultError
 from taskiq.kicker import AsyncKicker
 from taskiq.receiver import Receiver
@@ -68,6 +68,7 @@ class BadStrError(Exception):
 
 
 EXC: Dict[str, type] = {
+    "TaskRejectedError": TaskRejectedError,
     "EmptyBatchError": EmptyBatchError,
     "BadStrError": BadStrError,
     "ValueError": ValueError,
@@ -346,13 +347,20 @@ def _rename_params(hook: str, inner: Callable[..., Any]) -> Callable[..., Any]:
     return w
 
 
+HOOK_EXC = {"exc": "RuntimeError"}     # class of the exception a failing hook raises (set per scenario by build_middlewares)
+
+
+def _hook_failure() -> BaseException:
+    return BadStrError() if HOOK_EXC["exc"] == "BadStrError" else RuntimeError("hook failure")
+
+
 def _mk_hook(hook: str, mi: int, is_async: Any, fail_on: set, stamp: bool, tr: Trace) -> Callable[..., Any]:
     if hook in ("pre_send", "pre_execute"):
         def f(self: Any, message: Any) -> Any:
             i = msg_index(message.task_id)
             tr.add(hook, i, mw=mi, seen=str(message.labels.get("seen", "")))
             if i in fail_on:
-                raise RuntimeError("hook failure")
+                raise _hook_failure()
             if stamp:
                 message = message.model_copy(deep=True)
                 message.labels["seen"] = str(message.labels.get("seen", "")) + f"{hook[4]}{mi}"
@@ -362,19 +370,19 @@ def _mk_hook(hook: str, mi: int, is_async: Any, fail_on: set, stamp: bool, tr: T
             i = msg_index(message.task_id)
             tr.add(hook, i, mw=mi, exc=type(exception).__name__)
             if i in fail_on:
-                raise RuntimeError("hook failure")
+                raise _hook_failure()
     elif hook == "post_send":
         def f(self: Any, message: Any) -> None:  # type: ignore[misc]
             i = msg_index(message.task_id)
             tr.add(hook, i, mw=mi, seen=str(message.labels.get("seen", "")))
             if i in fail_on:
-                raise RuntimeError("hook failure")
+                raise _hook_failure()
     else:
         def f(self: Any, message: Any, result: Any) -> None:  # type: ignore[misc]
             i = msg_index(message.task_id)
             tr.add(hook, i, mw=mi, is_err=bool(result.is_err))
             if i in fail_on:
-                raise RuntimeError("hook failure")
+                raise _hook_failure()
     if is_async:
         g = f
 
@@ -612,6 +620,7 @@ def run_worker(sc: Dict[str, Any], register: Optional[Callable[..., None]] = Non
     if not sc.get("backend_late"):
         b.result_backend = rb
     (register or register_timing_tasks)(b, tr, sc)
+    HOOK_EXC["exc"] = sc.get("hook_exc", "RuntimeError")
     mws = build_middlewares(sc.get("mws", []), tr)
     if mws:
         b.add_middlewares(*mws)
